@@ -269,3 +269,9 @@ def fn_transpose_reduce(x):
 @onnx_function
 def fn_first_of_two(x, y):
     return x
+
+
+@onnx_function
+def fn_fanout(x):
+    # a body whose four results all fold back onto its input
+    return x, x.T.T, x.reshape(-1).reshape(x.shape), jnp.swapaxes(jnp.swapaxes(x, 0, 1), 0, 1)
